@@ -186,7 +186,16 @@ func (in *Interp) splitBy(s *StrVal, isSep func(b *smt.Term) *smt.Term) ([][]*sm
 	seps := make([]bool, len(bs))
 	cur := []*smt.Term{}
 	for i, b := range bs {
-		v, ok := constBool(isSep(b))
+		c := isSep(b)
+		v, ok := constBool(c)
+		if !ok {
+			// not syntactically constant: let the solver decide on this path
+			if !in.feasible(c) {
+				v, ok = false, true
+			} else if !in.feasible(in.St.Not(c)) {
+				v, ok = true, true
+			}
+		}
 		if !ok {
 			return nil, nil, false
 		}
